@@ -67,7 +67,7 @@ impl Property for P {
                     via_logger: via_logger && !utc,
                 };
                 let le = cfg.line_ending().len();
-                let ops = ops_strat(crit.size(), mode.buffer_cap(), le, true, 40);
+                let ops = crate::hist::ops_strat_f(crit.size(), mode.buffer_cap(), le, true, 40, !mode.is_async());
                 (
                     Just(cfg),
                     vinst_strat(),
